@@ -36,6 +36,9 @@ type likeCase struct {
 	// column has (distinct) values: "tail" Slice(n-10,n), "mid" Slice(n/2,n/2+8), "sorted-head"
 	// Sort(id desc).Slice(0,9), "filtered" rows with id%13 == 5, "sorted-all" Sort(id desc) keeping every row
 	Sub string `json:"sub,omitempty"`
+	// Pattern2: the filter is Or(s cmp Pattern, s cmp Pattern2): rows selected by the first member stay selected
+	Pattern2 string `json:"pattern2,omitempty"`
+	HasP2    bool   `json:"has_p2,omitempty"`
 }
 
 var c18cells []string
@@ -158,6 +161,9 @@ func c18Env() *c18Frames {
 
 func runLikeCase(c likeCase) *core.Failure {
 	if c.Upper {
+		if !seam.StringsAvailable {
+			return nil // internal/strings API changed: the direct ToUpper layer is skipped
+		}
 		buf := make([]byte, c.BufLen)
 		for i, s := range c.Seq {
 			got := strings.Clone(seam.ToUpper(&buf, s))
@@ -228,6 +234,9 @@ func runLikeCase(c likeCase) *core.Failure {
 	}
 	in := model.Observe(qf)
 	res := qf.Filter(qframe.Filter{Column: "s", Comparator: c.Cmp, Arg: c.Pattern})
+	if c.HasP2 {
+		res = qf.Filter(qframe.Or(qframe.Filter{Column: "s", Comparator: c.Cmp, Arg: c.Pattern}, qframe.Filter{Column: "s", Comparator: c.Cmp, Arg: c.Pattern2}))
+	}
 	col, _, _ := in.Col("s")
 	idc, _, _ := in.Col("id")
 	var want []int
@@ -237,6 +246,11 @@ func runLikeCase(c likeCase) *core.Failure {
 			continue
 		}
 		m, err := model.LikeMatch(c.Pattern, cell.S, c.Cmp == "like")
+		if err == nil && c.HasP2 {
+			var m2 bool
+			m2, err = model.LikeMatch(c.Pattern2, cell.S, c.Cmp == "like")
+			m = m || m2
+		}
 		if err != nil {
 			perr = err
 			break
@@ -249,7 +263,7 @@ func runLikeCase(c likeCase) *core.Failure {
 		// an invalid pattern is an error even when no cell is looked at
 		_, perr = model.LikeMatch(c.Pattern, "", c.Cmp == "like")
 	}
-	what := fmt.Sprintf("Filter(s %s %q) on %s column (order %s chunk %d seq %q sub %q)", c.Cmp, c.Pattern, map[bool]string{false: "string", true: "enum"}[c.Enum], c.Order, c.Chunk, c.Seq, c.Sub)
+	what := fmt.Sprintf("Filter(s %s %q [or %q: %v]) on %s column (order %s chunk %d seq %q sub %q)", c.Cmp, c.Pattern, c.Pattern2, c.HasP2, map[bool]string{false: "string", true: "enum"}[c.Enum], c.Order, c.Chunk, c.Seq, c.Sub)
 	if perr != nil {
 		if res.Err == nil {
 			return core.Failf("%s: the pattern is not a valid regular expression (%v) but no error was reported", what, perr)
@@ -346,6 +360,9 @@ func c18Patterns() []string {
 }
 
 func c18Run(ctx *core.Ctx) {
+	if !seam.StringsAvailable {
+		ctx.Note("the seam into internal/strings does not compile against this tree: the direct ToUpper layer is skipped, the like/ilike layers run")
+	}
 	env := c18Env()
 	exec := func(c likeCase, outcome string) {
 		ctx.Exec(c, func() *core.Failure { return runLikeCase(c) })
@@ -392,6 +409,23 @@ func c18Run(ctx *core.Ctx) {
 			}
 		}
 	}
+	// two patterns under Or, in both orders (a member must not unselect what an earlier member selected)
+	orPats := []string{"a%", "%b", "%a%", "A", "%", "a.", "aa%", "%\u0131", "K%"}
+	for _, p1 := range orPats {
+		for _, p2 := range orPats {
+			if p1 == p2 {
+				continue
+			}
+			for _, cmp := range []string{"like", "ilike"} {
+				if ctx.Mine() {
+					exec(likeCase{Pattern: p1, Pattern2: p2, HasP2: true, Cmp: cmp, Order: "asc"}, "or/string")
+				}
+				if ctx.Mine() {
+					exec(likeCase{Pattern: p1, Pattern2: p2, HasP2: true, Cmp: cmp, Order: "asc", Enum: true, Chunk: 0}, "or/enum")
+				}
+			}
+		}
+	}
 	// thorough: all 4-code-point patterns over a reduced alphabet (string column, one cell order)
 	if !ctx.Quick() {
 		red := []string{"a", "A", "\u0131", "\u0250", "\u0080", "%", "."}
@@ -416,9 +450,11 @@ func c18Run(ctx *core.Ctx) {
 			}
 		}
 	}
-	// buffer reuse: a 17-cell core in all sequences of 3, for the case-insensitive matchers and for ToUpper itself
+	// buffer reuse: a 20-cell core (incl. runes outside the basic plane) in all sequences of 3, for the case-insensitive matchers and for ToUpper itself
 	coreCells := []string{"a", "\u0131", "\u0250", "a\u0131b", "\u0250\u0250\u0250\u0250", "aaaaaaaaa", "aaaaaaaaa\u0131", "aaaaaaaaaaa\u0250", "\u00dfa", "a\u0080", "\u017f\u017f\u017f\u017f\u017f\u017f", "", "A", "bbbbbbbbbbbbbbbbbbbb\u0250",
-		"12345678\u0250", "AAAAAAAAAAAAAA\u0250", "abcdefghijkl"}
+		"12345678\u0250", "AAAAAAAAAAAAAA\u0250", "abcdefghijkl",
+		// runes outside the basic plane next to basic-plane runes with the same low 16 bits
+		"\u0448\u0429", "\U00010428\U00010429", "x\U0001044Fy\u044f"}
 	corePats := []string{"a%", "%\u0131", "%A%", "aib", "%\u0250", "s%", "%\u0080"}
 	forEachSeq(3, len(coreCells), func(pick []int) {
 		seq := []string{coreCells[pick[0]], coreCells[pick[1]], coreCells[pick[2]]}
@@ -449,7 +485,7 @@ func init() {
 		Setup: func() { c18Env() },
 		Level: "model_checking",
 		Rule: "case = (pattern, comparator, column kind, cell order). Cells: ALL strings of length <= 3 over a 13-code-point alphabet (a, A, b, é, É, ß, dotless i U+0131 (upper one byte shorter), long s U+017F, U+0250 (upper one byte longer), C1 control U+0080, Kelvin sign U+212A, '.', '(') plus a^k+c and c+b^k for k = 4..14 (lengths around the matcher's 10-byte buffer), A^k+t and 7^k+t for k = 4..18 and four tails t that change under upper-casing, and one null; " +
-			"patterns: ALL strings of length <= 3 over the alphabet plus '%' (incl. empty, %, %%, regex metacharacters, invalid regex) plus long patterns; comparators like and ilike; as string column (cells in ascending, descending and interleaved length order, because the case-insensitive matcher reuses one buffer across cells) and as enum column in chunks of 255 values (the maximal cardinality), each followed in the same process by a sibling enum column with the same cardinality, first and last value but the middle values rotated, and each also on five frames derived from the column's frame (tail slice, middle slice, sorted head, filtered, all rows sorted in reverse: 8-20 rows of a column with 255 values); valid and invalid patterns on degenerate columns (no rows, all null, rows already selected by an earlier Or sub-clause, filtered down to nulls); a 17-cell core in all sequences of 3 through ilike and through the zero-alloc ToUpper directly with 4 buffer sizes. " +
+			"patterns: ALL strings of length <= 3 over the alphabet plus '%' (incl. empty, %, %%, regex metacharacters, invalid regex) plus long patterns; comparators like and ilike; as string column (cells in ascending, descending and interleaved length order, because the case-insensitive matcher reuses one buffer across cells) and as enum column in chunks of 255 values (the maximal cardinality), each followed in the same process by a sibling enum column with the same cardinality, first and last value but the middle values rotated, and each also on five frames derived from the column's frame (tail slice, middle slice, sorted head, filtered, all rows sorted in reverse: 8-20 rows of a column with 255 values); valid and invalid patterns on degenerate columns (no rows, all null, rows already selected by an earlier Or sub-clause, filtered down to nulls); a 20-cell core (incl. runes outside the basic plane) in all sequences of 3 through ilike and through the zero-alloc ToUpper directly with 4 buffer sizes. " +
 			"Oracle: the statement's rules (literal match after trimming one leading/trailing %, strings.ToUpper for ilike, Go regexp anchored per missing % with (?i) for ilike when the pattern has metacharacters, compile error => Err, nulls never match). Every Filter call evaluates ~2700 cells; all cases non-trivial, distinct by content.",
 		Assumptions: []string{
 			"strings.ToUpper and Go's regexp are the reference for Unicode upper-casing and regular expressions",
